@@ -38,6 +38,8 @@ def alt_match(impl, model):
     rx = rx.replace(re.escape("chan-finished failed_to_read_settings"), r"chan-finished (?:failed_to_read_settings|err:context_canceled)")
     # a blocked Header() races with the watcher that publishes "no headers" when the context ends
     rx = rx.replace(re.escape("other:RACE:ctx-or-nil-headers"), r"(?:ctx:canceled|ctx:deadline|md\{-\})")
+    # a WaitForReady started from the close callback of the last tunnel: the callback may run before the receive loop unregistered it
+    rx = rx.replace(re.escape("RACE:ok-or-parked"), r"(?:ok|parked)")
     rx = re.sub(r"(\d+)((?:/\d+)+)", lambda m: "(?:" + "|".join([m.group(1)] + m.group(2).strip("/").split("/")) + ")", rx)
     return re.fullmatch(rx, impl) is not None
 
@@ -251,6 +253,22 @@ def _closeerr_monitor(op, im):
     if "rpc" in r:
         return "rpc-fails-on-open-tunnel"
     return None
+
+
+def _early_monitor(op, im):
+    """C02: a handler that rejects without reading the request - the caller gets exactly that status, whatever the request size."""
+    if op.startswith("x.earlyreject"):
+        if "shape=U" in op and im != "status:PermissionDenied":
+            return "status-lost-behind-blocked-send" if im == "ctx-canceled" else "wrong-status"
+        if "shape=CS" in op and not im.endswith("recv=status:PermissionDenied"):
+            return "wrong-status"
+    return None
+
+
+EARLYREJECT = ops_family("earlyreject", "^TestW2EarlyReject$", ["earlyreject"], mode="exact", monitor=_early_monitor,
+                         nontrivial=lambda op, im, mo: "size=70000" in op or "size=200000" in op,
+                         rule="real grpc-go forward tunnel; unary and client-streaming handlers that return PermissionDenied without reading the request; "
+                              "request sizes below and above the 64 KiB window; the caller's result must be exactly that status")
 
 
 CLOSEERR = ops_family("closeerr", "^TestW2CloseErr$", ["closeerr"], monitor=_closeerr_monitor,
@@ -684,7 +702,7 @@ PROPS = {
     "C02": {
         "lean_targets": ["Proofs.Props.C02"],
         "prop_files": ["Proofs/Props/C02.lean"],
-        "families": [META("C02"), UTF8, W1("C02"), CWORLD("C02"), SWORLD("C02"), race_family("C02")],
+        "families": [META("C02"), UTF8, W1("C02"), CWORLD("C02"), SWORLD("C02"), EARLYREJECT, race_family("C02")],
         "needs_race": True,
         "trusted_base": ["L-frame endpoint models (status / header / trailer handling), Metadata.lean (UTF-8 validity, toProto/fromProto as identity on encodable metadata)",
                          "real grpc-go on bufconn for the metadata world (TestW2Meta), Go race detector for the publication order of trailers (D4)"],
